@@ -53,6 +53,9 @@ type c15Result struct {
 	simTime       time.Duration
 	infra         string
 	neverFinished bool
+	round2        bool
+	err2          error
+	reqs2         []*NetReq
 }
 
 func c15Exec(t *testing.T, p *Plan) (r *c15Result) {
@@ -252,6 +255,42 @@ func c15Exec(t *testing.T, p *Plan) (r *c15Result) {
 		}
 		r.simTime = time.Since(start)
 		r.reqs, r.wcalls, r.fired = sn.Requests(), dw.calls, sn.Fired
+		if len(w.Logs) >= 2 && p.Cfg.Extra["round2"] != 0 {
+			// a second round with the same distributor, fault-free: the witness now answers each log's question with what it
+			// answered for the NEXT log in the first round (whatever passed the checks then belongs to that other log)
+			time.Sleep(time.Minute)
+			first := map[string][]byte{}
+			for id, b := range dw.answers {
+				first[id] = b
+			}
+			r.answers = first // the oracle of the first round compares with these
+			for i, ld := range w.Logs {
+				o := w.Logs[(i+1)%len(w.Logs)]
+				dw.answers[ld.ID] = first[o.ID]
+				delete(dw.errs, ld.ID)
+			}
+			sn.mu.Lock()
+			sn.Faults = map[string]string{}
+			sn.mu.Unlock()
+			nput = len(r.net) // no network faults in this round
+			before := len(sn.Requests())
+			done2 := make(chan struct{})
+			go func() {
+				defer close(done2)
+				r.err2 = d.DistributeOnce(context.Background())
+			}()
+			for i := 0; i < 1000; i++ {
+				synctest.Wait()
+				select {
+				case <-done2:
+					i = 1 << 20
+				default:
+					time.Sleep(time.Second)
+				}
+			}
+			r.round2 = true
+			r.reqs2 = sn.Requests()[before:]
+		}
 		time.Sleep(time.Minute) // let client-side timers of unclosed response bodies run out before the bubble ends
 		synctest.Wait()
 	})
@@ -291,6 +330,23 @@ func oracleC15(p *Plan, r *c15Result) []Violation {
 	if r.neverFinished {
 		add("log_skipped_after_failure", "cycle_never_ended", fmt.Sprintf("DistributeOnce was still running after 1000 simulated seconds (answers %v, network %v, client timeout %q, %d requests so far): the remaining logs are never attempted and no result is reported", r.kinds, r.net, p.Cfg.Notes["client_timeout"], len(r.reqs)))
 		return out
+	}
+	if r.round2 {
+		// nothing the witness answered in round 2 is a checkpoint of the log it was asked about
+		// (with two logs, "another log's checkpoint" as log 1's first-round answer IS a checkpoint of log 0, and vice versa)
+		legit := 0
+		for i := range w.Logs {
+			if j := (i + 1) % len(w.Logs); len(w.Logs) == 2 && j < len(r.kinds) && r.kinds[j] == "other_log" {
+				legit++
+			}
+		}
+		if len(r.reqs2) > legit {
+			add("invalid_checkpoint_pushed", "other_logs_checkpoint_in_a_later_round", fmt.Sprintf("second round: the witness answered every log's question with another log's first-round answer (answers %v), yet %d request(s) went out where at most %d can be justified, the first: %s %s with body %s", r.kinds, len(r.reqs2), legit, r.reqs2[0].Method, r.reqs2[0].Path, short(r.reqs2[0].Body)))
+		}
+		if r.err2 == nil && legit < len(w.Logs) {
+			add("error_count_wrong", "nil_in_a_later_round", "second round: logs were answered with another log's checkpoint, but DistributeOnce returned nil")
+		}
+		r.wcalls = r.wcalls[:min(len(r.wcalls), len(w.Logs))] // the checks below are about the first round
 	}
 	// every log is asked for, once, in order, whatever happened before
 	if len(r.wcalls) != len(w.Logs) {
@@ -418,6 +474,9 @@ func init() {
 				"witname":         Pick(r, "wit0", "wit0", "witness.example/w1", "w%41", "wit?x#y", "ŵit-ness", "a:b@c", "wit&co=1")}
 			if p.Cfg.Notes["client_timeout"] == "none" {
 				p.Cfg.Notes["net"] = strings.ReplaceAll(p.Cfg.Notes["net"], "stall", "drop") // a stalled peer and no timeout never ends, by definition
+			}
+			if n%3 == 0 {
+				p.Cfg.Extra = map[string]int64{"round2": 1} // the same distributor serves a second round (answers swapped between logs)
 			}
 			return p
 		},
